@@ -57,6 +57,12 @@ func runC14(p *Program, r *Result) {
 					break
 				}
 			}
+			if !found && ob.Kind == "panic" {
+				if why, ok := panicExcludedByCallers(p, fn, ob.Instr); ok {
+					r.OK(fn.String(), ob.Desc, r.pos(ob.Instr), why)
+					continue
+				}
+			}
 			if !found {
 				r.Bad(fn.String(), ob.Desc, r.pos(ob.Instr), ob.Detail+" — may panic on hostile input (no guard found, not in bounds_table.json)")
 			}
@@ -515,4 +521,87 @@ func checkLimits(p *Program, r *Result) {
 		}
 		r.Check(okDec, rd.String(), "precondition:base64.Decode", pos, "len(line) <= ColumnsPerLine and the destination holds DecodedLen(ColumnsPerLine) bytes", "base64 Decode may be called with a destination shorter than DecodedLen(len(line)): it panics on an over-long armored line")
 	}
+}
+
+// panicExcludedByCallers: an assertion on the length of a parameter of an unexported function
+// that no call site can trip: the panic sits behind a test of len(P_k) against a constant, and
+// every caller (there is at least one, all static) passes a buffer whose length is a constant
+// for which the test is false.
+func panicExcludedByCallers(p *Program, fn *ssa.Function, at ssa.Instruction) (string, bool) {
+	if fn.Object() == nil || fn.Object().Exported() || fn.Parent() != nil {
+		return "", false
+	}
+	callers := p.Callers(fn)
+	if len(callers) == 0 || p.CG().AddrTaken[fn] {
+		return "", false
+	}
+	tb := p.TB(fn)
+	for _, a := range tb.FactsAt(at.Block()) {
+		if a.Kind != "cmp" || !isLenTerm(a.X) || len(a.X.Args) != 1 {
+			continue
+		}
+		prm, ok := a.X.Args[0].V.(*ssa.Parameter)
+		if !ok {
+			continue
+		}
+		k, isK := intConst(a.Y)
+		if !isK {
+			continue
+		}
+		idx := -1
+		for i, q := range fn.Params {
+			if q == prm {
+				idx = i
+			}
+		}
+		if idx < 0 {
+			continue
+		}
+		all := true
+		for _, e := range callers {
+			c, ok := e.Site.(ssa.CallInstruction)
+			if !ok || e.Kind != "static" || idx >= len(c.Common().Args) {
+				all = false
+				break
+			}
+			ctb := p.TB(e.Caller)
+			sym, n, _ := ctb.lenSym(c.Common().Args[idx])
+			if sym != "0" {
+				// a fresh buffer of constant size
+				t := ctb.Term(c.Common().Args[idx])
+				if (t.Op == "Rand" || t.Op == "ReadN" || t.Op == "Zero" || t.Op == "Copy") && len(t.Args) > 0 {
+					if m, ok := intConst(t.Args[len(t.Args)-1]); ok {
+						sym, n = "0", m
+					}
+				}
+			}
+			if sym != "0" {
+				all = false
+				break
+			}
+			holds := false
+			switch a.Op {
+			case "==":
+				holds = n == k
+			case "!=":
+				holds = n != k
+			case "<=":
+				holds = n <= k
+			case ">=":
+				holds = n >= k
+			case "<":
+				holds = n < k
+			case ">":
+				holds = n > k
+			}
+			if holds {
+				all = false
+				break
+			}
+		}
+		if all {
+			return "assertion on " + short(a.String()) + ": every one of the " + itoa(len(callers)) + " call sites passes a buffer of a constant length for which it is false", true
+		}
+	}
+	return "", false
 }
